@@ -57,6 +57,22 @@ impl<'tera> VirtualMachine<'tera> {
         output: &mut impl Write,
     ) -> TeraResult<()> {
         let mut ip = 0;
+        #[cfg(tera_verif)]
+        crate::verif::emit(|| {
+            let chunk = state.chunk.expect("to have a chunk");
+            format!(
+                "{{\"e\":\"enter\",\"tpl\":{},\"ch\":{},\"h\":{},\"sd\":{},\"ld\":{},\"pd\":{},\"bd\":{},\"ae\":{},\"cd\":{}}}",
+                crate::verif::json_str(&self.template.name),
+                crate::verif::json_str(&chunk.name),
+                chunk.verif_hash(),
+                state.stack.verif_len(),
+                state.for_loops.len(),
+                state.capture_buffers.len(),
+                state.blocks.len(),
+                self.autoescape_enabled(),
+                self.component_recursion_depth
+            )
+        });
 
         macro_rules! rendering_error {
             ($msg:expr,$span_range:expr) => {{
@@ -189,6 +205,29 @@ impl<'tera> VirtualMachine<'tera> {
         while let Some((instr, _)) = state.chunk.expect("To have a chunk").get(ip) {
             // Current instruction index as span reference
             let current_ip = ip as u32;
+            // State *before* the instruction executes; its effect is read off the next event
+            #[cfg(tera_verif)]
+            crate::verif::emit(|| {
+                let (op, t, n, names) = instr.verif_parts();
+                let (tk, tt, ts, lo, hi) = state.stack.verif_top();
+                format!(
+                    "{{\"e\":\"op\",\"ip\":{},\"op\":\"{}\",\"t\":{},\"n\":{},\"a\":{},\"sd\":{},\"ld\":{},\"pd\":{},\"bd\":{},\"tk\":\"{}\",\"tt\":{},\"ts\":{},\"lo\":{},\"hi\":{}}}",
+                    ip + 1,
+                    op,
+                    t,
+                    n,
+                    crate::verif::json_str(names.first().map(|s| s.as_str()).unwrap_or("")),
+                    state.stack.verif_len(),
+                    state.for_loops.len(),
+                    state.capture_buffers.len(),
+                    state.blocks.len(),
+                    tk,
+                    tt,
+                    ts,
+                    lo,
+                    hi
+                )
+            });
 
             match instr {
                 Instruction::LoadConst(v) => {
@@ -317,6 +356,14 @@ impl<'tera> VirtualMachine<'tera> {
                     }
                 }
                 Instruction::WriteText(t) => {
+                    #[cfg(tera_verif)]
+                    crate::verif::emit(|| {
+                        format!(
+                            "{{\"e\":\"text\",\"cap\":{},\"n\":{}}}",
+                            !state.capture_buffers.is_empty(),
+                            t.len()
+                        )
+                    });
                     if let Some(captured) = state.capture_buffers.last_mut() {
                         captured.write_all(t.as_bytes())?;
                     } else {
@@ -333,6 +380,16 @@ impl<'tera> VirtualMachine<'tera> {
                     }
 
                     if !self.autoescape_enabled() || top.is_safe() {
+                        #[cfg(tera_verif)]
+                        crate::verif::emit(|| {
+                            format!(
+                                "{{\"e\":\"sink\",\"ae\":{},\"safe\":{},\"esc\":false,\"cap\":{},\"k\":\"{}\"}}",
+                                self.autoescape_enabled(),
+                                top.is_safe(),
+                                !state.capture_buffers.is_empty(),
+                                top.name()
+                            )
+                        });
                         if let Some(captured) = state.capture_buffers.last_mut() {
                             top.format(captured)?;
                         } else {
@@ -340,6 +397,16 @@ impl<'tera> VirtualMachine<'tera> {
                         }
                     } else {
                         // Avoiding String as much as possible
+                        #[cfg(tera_verif)]
+                        crate::verif::emit(|| {
+                            format!(
+                                "{{\"e\":\"sink\",\"ae\":{},\"safe\":{},\"esc\":true,\"cap\":{},\"k\":\"{}\"}}",
+                                self.autoescape_enabled(),
+                                top.is_safe(),
+                                !state.capture_buffers.is_empty(),
+                                top.name()
+                            )
+                        });
                         state.escape_buffer.clear();
                         top.format(&mut state.escape_buffer)?;
                         // SAFETY: the buffer was just filled by Value::format, which only
@@ -847,12 +914,32 @@ impl<'tera> VirtualMachine<'tera> {
                     };
 
                     if !self.autoescape_enabled() || val.is_safe() {
+                        #[cfg(tera_verif)]
+                        crate::verif::emit(|| {
+                            format!(
+                                "{{\"e\":\"sink\",\"ae\":{},\"safe\":{},\"esc\":false,\"cap\":{},\"k\":\"{}\"}}",
+                                self.autoescape_enabled(),
+                                val.is_safe(),
+                                !state.capture_buffers.is_empty(),
+                                val.name()
+                            )
+                        });
                         if let Some(captured) = state.capture_buffers.last_mut() {
                             val.format(captured)?;
                         } else {
                             val.format(output)?;
                         }
                     } else {
+                        #[cfg(tera_verif)]
+                        crate::verif::emit(|| {
+                            format!(
+                                "{{\"e\":\"sink\",\"ae\":{},\"safe\":{},\"esc\":true,\"cap\":{},\"k\":\"{}\"}}",
+                                self.autoescape_enabled(),
+                                val.is_safe(),
+                                !state.capture_buffers.is_empty(),
+                                val.name()
+                            )
+                        });
                         state.escape_buffer.clear();
                         val.format(&mut state.escape_buffer)?;
                         // SAFETY: the buffer was just filled by Value::format, which only
@@ -870,6 +957,18 @@ impl<'tera> VirtualMachine<'tera> {
 
             ip += 1;
         }
+        // Normal exit of a frame (errors leave through `return Err`/`?` and emit nothing)
+        #[cfg(tera_verif)]
+        crate::verif::emit(|| {
+            format!(
+                "{{\"e\":\"leave\",\"ip\":{},\"sd\":{},\"ld\":{},\"pd\":{},\"bd\":{}}}",
+                ip + 1,
+                state.stack.verif_len(),
+                state.for_loops.len(),
+                state.capture_buffers.len(),
+                state.blocks.len()
+            )
+        });
 
         Ok(())
     }
